@@ -174,15 +174,7 @@ public:
 
 		std::lock_guard<Mutex> lockGuard(mutex);
 
-		if(head) {
-			node->previous = tail;
-			tail->next = node;
-			tail = node;
-		}
-		else {
-			head = node;
-			tail = node;
-		}
+		doAppendNode(node);
 
 		return Handle(node);
 	}
@@ -217,7 +209,14 @@ public:
 
 			std::lock_guard<Mutex> lockGuard(mutex);
 
-			doInsert(node, beforeNode);
+			// A removed callback can still be alive when a running invocation holds it,
+			// but it is not in the list any more, so the new callback goes to the back.
+			if(beforeNode->counter != removedCounter) {
+				doInsert(node, beforeNode);
+			}
+			else {
+				doAppendNode(node);
+			}
 
 			return Handle(node);
 		}
@@ -235,7 +234,8 @@ public:
 		std::lock_guard<Mutex> lockGuard(mutex);
 
 		auto node = handle.lock();
-		if(node) {
+		// A removed callback can still be alive when a running invocation holds it.
+		if(node && node->counter != removedCounter) {
 			doFreeNode(node);
 			return true;
 		}
@@ -248,7 +248,7 @@ public:
 		std::lock_guard<Mutex> lockGuard(mutex);
 
 		auto node = handle.lock();
-		if(node) {
+		if(node && node->counter != removedCounter) {
 			while(node->previous) {
 				node = node->previous;
 			}
@@ -362,6 +362,19 @@ private:
 		-> typename std::enable_if<CanInvoke<Func, Callback &>::value, RT>::type
 	{
 		return func(node->callback);
+	}
+
+	void doAppendNode(NodePtr & node)
+	{
+		if(head) {
+			node->previous = tail;
+			tail->next = node;
+			tail = node;
+		}
+		else {
+			head = node;
+			tail = node;
+		}
 	}
 
 	void doInsert(NodePtr & node, NodePtr & beforeNode)
